@@ -115,6 +115,8 @@ type kustomizationFile struct {
 	path           string
 	fSys           filesys.FileSystem
 	originalFields []*commentedField
+	// trailingComments are the comment lines after the last field
+	trailingComments []byte
 }
 
 // NewKustomizationFile returns a new instance.
@@ -215,6 +217,11 @@ func (mf *kustomizationFile) parseCommentedFields(content []byte) error {
 	if err != io.EOF {
 		return err
 	}
+	// the last line may lack a newline
+	if len(line) > 0 && isCommentOrBlankLine(line) {
+		comments = append(comments, append(line, '\n'))
+	}
+	mf.trailingComments = squash(comments)
 	return nil
 }
 
@@ -239,6 +246,7 @@ func (mf *kustomizationFile) marshal(kustomization *types.Kustomization) ([]byte
 		}
 		output = append(output, content...)
 	}
+	output = append(output, mf.trailingComments...)
 	return output, nil
 }
 
